@@ -89,6 +89,11 @@ func (s *statsManager) sessionTerminated(clientID string, reason SessionTerminat
 	atomic.AddUint64(&s.totalStats.ConnectionStats.InactiveCurrent, ^uint64(0))
 	s.clientMu.Lock()
 	defer s.clientMu.Unlock()
+	// the queue of the session is gone: its share leaves the global gauges
+	if sts := s.clientStats[clientID]; sts != nil {
+		atomic.AddUint64(&s.totalStats.MessageStats.QueuedCurrent, ^uint64(atomic.LoadUint64(&sts.MessageStats.QueuedCurrent)-1))
+		atomic.AddUint64(&s.totalStats.MessageStats.InflightCurrent, ^uint64(atomic.LoadUint64(&sts.MessageStats.InflightCurrent)-1))
+	}
 	delete(s.clientStats, clientID)
 }
 
